@@ -57,6 +57,10 @@ def E(*a, **k):
     return Entry(*a, **k)
 
 
+# ten levels of ten aliases each: serde_yaml stops with "repetition limit exceeded" (no location)
+ALIAS_BOMB = "a: &a [x, x, x, x, x, x, x, x, x, x]\n" + "".join(
+    "%s: &%s [%s]\n" % (n, n, ", ".join("*" + p for _ in range(10))) for p, n in zip("abcdefghi", "bcdefghij"))
+
 CATALOG = [
     # ---- empty name (step.rs:569-576 check_empty_name; timers: 475-486)
     E("empty_name_igr", "empty name", "@{1%g}", "e", "Parse", 0, STEP_RS + ":571"),
@@ -214,6 +218,16 @@ CATALOG = [
       why="not a mapping"),
     E("fm_duplicate_key", "malformed front matter", "title: a\ntitle: b\n", "e", "Analysis", 0, EC_RS + ":243",
       level="front", why="serde_yaml rejects duplicate keys of a Mapping"),
+    # errors serde_yaml reports WITHOUT a location (Error::location() is None): the label is then the whole
+    # front matter text (45a4888; before that repair the diagnostic had no label at all)
+    E("fm_multi_document", "malformed front matter", "a: 1\n...\nb: 2\n", "e", "Analysis", 0, EC_RS + ":243",
+      level="front", why="more than one YAML document; serde_yaml gives no location"),
+    E("fm_multi_document_comment", "malformed front matter", "title: x\n...\n# c\nservings: 2\n", "e", "Analysis", 0,
+      EC_RS + ":243", level="front", why="more than one YAML document; serde_yaml gives no location"),
+    E("fm_document_end_then_scalar", "malformed front matter", "title: x\n...\ny\n", "e", "Analysis", 0,
+      EC_RS + ":243", level="front", why="more than one YAML document; serde_yaml gives no location"),
+    E("fm_alias_bomb", "malformed front matter", ALIAS_BOMB, "e", "Analysis", 0, EC_RS + ":243", level="front",
+      why="repetition limit exceeded while expanding aliases; serde_yaml gives no location"),
     # ---- non-time timer unit (event_consumer.rs:988-1016; ADVANCED_UNITS + a converter)
     E("timer_unit_mass", "non-time timer unit", "~{5%kg}", "e", "Analysis", X_ADV, EC_RS + ":1001", conv="b"),
     E("timer_unit_volume", "non-time timer unit", "~zzrest{2 ml}", "e", "Analysis", X_ADV, EC_RS + ":1001", conv="b"),
